@@ -40,6 +40,7 @@ structure Req where
   gpanic : Option (Nat × Nat) := none
   skewGen : Nat := 0
   skewCall : Nat := 0
+  lazy : Nat := 0              -- if non-zero: only the first `lazy` calls of a thread allocate
   bar : Bool := false           -- barrier waits are part of the traces (instrumented Barrier)
   deriving Repr, Inhabited
 
@@ -74,6 +75,7 @@ def parseReq (args : List String) : Option Req := do
         | _ => none
       | "cold" => r := { r with cold := v = "1" }
       | "bar" => r := { r with bar := v = "1" }
+      | "lazy" => r := { r with lazy := ← v.toNat? }
       | "gpanic" =>
         if v = "-" then pure () else
         match (v.splitOn ":").mapM String.toNat? with
@@ -173,7 +175,7 @@ def interp (r : Req) (t : Nat) (x : SmpSt) : SampleLoop.Ev → SmpSt
     if r.panic = some (t, j) then { x with sim := { sim with panicked := true }, dead := true } else
     let sz := max (r.aSize + j) 1
     let al := x.al
-    let al := if r.aCall > 0 then
+    let al := if r.aCall > 0 ∧ (r.lazy = 0 ∨ j < r.lazy) then
         { al with allocC := al.allocC + r.aCall, allocS := al.allocS + r.aCall * sz,
                   growC := al.growC + r.aCall, growS := al.growS + r.aCall * sz,
                   deallocC := al.deallocC + r.aCall, deallocS := al.deallocS + r.aCall * 2 * sz,
@@ -590,7 +592,37 @@ def handle (args : List String) (obs : String) : Option Reply := do
       let sizes := recs.map fun x => x.2.2.1
       let final := sizes.getLastD 0
       (if sizes.any (· ≠ final) then ["[C19] the reported samples were not all taken with the final sample size"] else []) ++
-      (if iters ≠ nRec * final then ["[C19][C03] the reported iteration count is not the number of samples times the final sample size"] else [])
+      (if iters ≠ nRec * final then ["[C19][C03] the reported iteration count is not the number of samples times the final sample size"] else []) ++
+      -- C05: the four time figures are the order statistics of the recorded samples' own durations
+      (let precU := if r.ss.isNone then r.prec else 0
+       let durs := recs.map fun x => RoundLoop.clampTo precU (x.2.1 - x.1)
+       let ts := Stats.timeStats final (durs.mergeSort fun a b => a ≤ b)
+       let want := s!"t{ts.fastest},{ts.slowest},{ts.median},{ts.mean}"
+       if final ≠ 0 ∧ !(implStats.splitOn " ").contains want then
+         ["[C05] fastest / slowest / median / mean are not the smallest, largest, middle (mean of the two middle) and total of the recorded samples' durations divided by the sample size (want " ++ want ++ ")"]
+       else [])
+     else []) ++
+    -- C02: the allocation count attributed to the recorded samples is that of their own calls
+    (if !r.isTest ∧ !panicky ∧ !noRun ∧ implStats ≠ "hang" ∧ implStats ≠ "panic" ∧ r.aCall > 0 then
+      -- per thread: (calls, index of the thread's first call) of every sample, in order
+      let perT := (List.range T).map fun t =>
+        let evs := traces.getD t []
+        let evs := if r.cold ∧ t = 0 then stripCal 400 evs else evs
+        let evs := if t = 0 ∧ !o.skipExt then evs.drop 1 else evs
+        let cs := (samplesOf evs).map fun smp => count (·.k = 'k') smp
+        (cs.foldl (fun (acc : List (Nat × Nat) × Nat) c => (acc.1 ++ [(c, acc.2)], acc.2 + c)) ([], 0)).1
+      let nums := (((implStats.splitOn " ").find? (·.startsWith "n")).map fun w => ((w.drop 1).toString.splitOn ",").filterMap String.toNat?).getD []
+      let nRec := nums.getD 0 0
+      let iters := nums.getD 1 0
+      let rounds := (perT.map (·.length)).foldl min 100000
+      let ordered := (List.range rounds).flatMap fun k => perT.map fun l => l.getD k (0, 0)
+      let recs := ordered.drop (ordered.length - nRec)
+      if recs.isEmpty ∨ nums.length ≠ 2 ∨ nRec > ordered.length ∨ iters = 0 then [] else
+      let allocsOf (c j0 : Nat) : Nat := ((List.range c).filter fun i => r.lazy = 0 ∨ j0 + i < r.lazy).length * r.aCall
+      let total := (recs.map fun (c, j0) => allocsOf c j0).foldl (· + ·) 0
+      let want := toString (SoftFloat.div (SoftFloat.ofNat total) (SoftFloat.ofNat iters))
+      let got := ((statGroups implStats).getD 6 []).getD 3 ""
+      if got ≠ want then ["[C02][C19] the mean allocation count is not that of the allocator operations the recorded samples' own calls performed between their timestamps"] else []
      else []) ++
     -- C01: `_local` forms run on the calling thread only
     (if r.isLocal ∧ (traces.drop 1).any (!·.isEmpty) then ["[C01] a _local form ran on a pool thread"] else []) ++
